@@ -5,6 +5,7 @@ package engine
 // C16 — relational built-ins enumerate exactly their relation in every call mode.
 
 import (
+	"context"
 	"strings"
 	"unicode/utf8"
 )
@@ -691,4 +692,54 @@ func VH_C16_alias(vm *VM, inst int) {
 		verify(vIdenticalV(got[i][0], want[i]), "sharing a variable between two arguments gives an answer the general call does not have at that position")
 	}
 	reach("c16/alias", true)
+}
+
+// ---- the list library on partial lists, against the defining clauses ----
+
+const c16RefLib = "rmember(X, [X|_]). rmember(X, [_|Xs]) :- rmember(X, Xs). " +
+	"rselect(E, [E|Xs], Xs). rselect(E, [X|Xs], [X|Ys]) :- rselect(E, Xs, Ys). " +
+	"rappend([], L, L). rappend([H|T], L, [H|R]) :- rappend(T, L, R)."
+
+// each goal uses member/select/append; the reference goal is the same text with r-prefixed names
+var c16Partial = []string{
+	"member(X, [a|T])", "member(b, [a|T])", "member(X, L)", "member(X, [a, b|T])", "member(X, [a, b, c])", "member(c, [a, b, c])", "member(X, [])",
+	"member(f(X), [f(1), g(2), f(3)|T])", "member(X, [Y|T]), X = k", "member(a, [X, Y])", "member(K-V, D), D = [a-1|_]",
+	"select(X, [a|T], R)", "select(a, L, [b])", "select(X, [a, b, c], R)", "select(b, [a, b, c, b], R)", "select(X, L, R)", "select(a, [a|T], T)",
+	"append(X, [c], L)", "append([a|T], [c], L)", "append(X, Y, [a|T])", "append(X, Y, [a, b])", "append([a], [b], L)", "append(X, [b], [a, b])", "append(X, X, L)",
+	"append(L1, L2, L3), L1 = [a], L2 = [b], !", "member(X, [a, b]), member(Y, [X|T]), Y == a, !",
+}
+
+func c16RefName(g string) string {
+	g = strings.ReplaceAll(g, "member(", "rmember(")
+	g = strings.ReplaceAll(g, "select(", "rselect(")
+	g = strings.ReplaceAll(g, "append(", "rappend(")
+	return g
+}
+
+// VH_C16_partial: the first 4 answers of the library predicate and of its defining clauses are the same, in order,
+// up to renaming (all query variables compared, so that what an open tail is bound to counts).
+func VH_C16_partial(vm *VM, inst int) {
+	g := c16Partial[inst]
+	note("goal", g)
+	rules, err := vParseAll(vm, c16RefLib)
+	verify(err == nil, "harness: reference library does not parse")
+	for _, r := range rules {
+		ok, err := Assertz(vm, r, Success, nil).Force(context.Background())
+		verify(ok && err == nil, "harness: assertz of a reference clause failed")
+	}
+	run := func(text string) vImplRun {
+		q, pv, err := vParseQuery(vm, text+".")
+		verify(err == nil, "harness: goal does not parse: "+text)
+		vars := make([]Variable, len(pv))
+		for i, v := range pv {
+			vars[i] = v.Variable
+		}
+		return vRunImpl(vm, q, vars, 4, nil)
+	}
+	lib, ref := run(g), run(c16RefName(g))
+	verify(lib.status == ref.status && len(lib.answers) == len(ref.answers), "a list library predicate and its defining clauses differ in the number of answers or in how they end")
+	for i := range lib.answers {
+		verify(decide(vVariantV(NewAtom("r").Apply(lib.answers[i]...), NewAtom("r").Apply(ref.answers[i]...), &rRename{}, &rRename{})), "a list library predicate gives a different answer than its defining clauses")
+	}
+	reach("c16/partial", true)
 }
